@@ -1,8 +1,63 @@
+(* C44 — lemmas about Model/C44.v. *)
 From Coq Require Import NArith List Bool Arith Lia.
 From KV Require Import Common.Verdict Model.C44.
 Import ListNotations.
 Open Scope N_scope.
 
+(* ---------- equality tests ---------- *)
+Lemma list_eqb_eq : forall a b, list_eqb a b = true <-> a = b.
+Proof.
+  induction a as [|x a IH]; intros [|y b]; simpl; split; intro H; try congruence; auto.
+  - apply andb_true_iff in H as [H1 H2]. apply N.eqb_eq in H1. apply IH in H2. congruence.
+  - inversion H; subst. rewrite N.eqb_refl. simpl. apply IH. reflexivity.
+Qed.
+Lemma list_eqb_refl : forall a, list_eqb a a = true.
+Proof. intro a. apply list_eqb_eq. reflexivity. Qed.
+Lemma memN_In : forall x l, memN x l = true <-> In x l.
+Proof.
+  intros x l. unfold memN. rewrite existsb_exists. split.
+  - intros [y [Hy He]]. apply N.eqb_eq in He. subst. exact Hy.
+  - intro H. exists x. split; [exact H | apply N.eqb_refl].
+Qed.
+Lemma eth_eqb_eq : forall a b, eth_eqb a b = true <-> a = b.
+Proof. intros [] []; simpl; split; intro H; congruence. Qed.
+Lemma btc_eqb_eq : forall a b, btc_eqb a b = true <-> a = b.
+Proof. intros [] []; simpl; split; intro H; congruence. Qed.
+Lemma net_eqb_eq : forall a b, net_eqb a b = true <-> a = b.
+Proof. intros [] []; simpl; split; intro H; congruence. Qed.
+Lemma err_eqb_eq : forall a b, err_eqb a b = true <-> a = b.
+Proof. intros [] []; simpl; split; intro H; congruence. Qed.
+Lemma pres_eqb_eq : forall a b, pres_eqb a b = true <-> a = b.
+Proof.
+  intros [x| |] [y| |]; simpl; split; intro H; try congruence; auto.
+  - apply list_eqb_eq in H. congruence.
+  - inversion H. apply list_eqb_refl.
+Qed.
+Lemma ures_eqb_eq : forall a b, ures_eqb a b = true <-> a = b.
+Proof.
+  intros [x| |] [y| |]; simpl; split; intro H; try congruence; auto.
+  - apply N.eqb_eq in H. congruence.
+  - inversion H. apply N.eqb_refl.
+Qed.
+
+(* ---------- network table ---------- *)
+Lemma net_eth_inj : forall n n', net_eth n = net_eth n' -> n = n'.
+Proof. intros [] []; simpl; congruence. Qed.
+Lemma net_btc_inj : forall n n', net_btc n = net_btc n' -> n = n'.
+Proof. intros [] []; simpl; congruence. Qed.
+Lemma network_table :
+  (net_eth NMainnet = EMainnet /\ net_btc NMainnet = BMainnet) /\
+  (net_eth NTestnet = ESepolia /\ net_btc NTestnet = BTestnet) /\
+  (net_eth NDeveloper = EDeveloper /\ net_btc NDeveloper = BRegtest) /\
+  (net_eth NUnknown = EUnknown /\ net_btc NUnknown = BUnknown) /\
+  (forall n n', net_eth n = net_eth n' <-> net_btc n = net_btc n').
+Proof.
+  repeat split; try reflexivity; intro H.
+  - apply net_eth_inj in H. congruence.
+  - apply net_btc_inj in H. congruence.
+Qed.
+
+(* ---------- the three resolve functions ---------- *)
 Lemma resolve_contracts_idem : forall defs addrs,
   resolve_contracts defs (resolve_contracts defs addrs) = resolve_contracts defs addrs.
 Proof.
@@ -10,3 +65,510 @@ Proof.
   f_equal; [|apply IH].
   destruct (N.eqb a 0) eqn:Ha; [destruct (N.eqb d 0); reflexivity | rewrite Ha; reflexivity].
 Qed.
+
+Lemma resolve_contracts_length : forall defs addrs,
+  (length addrs <= length defs)%nat -> length (resolve_contracts defs addrs) = length addrs.
+Proof.
+  induction defs as [|d ds IH]; intros [|a t] H; simpl in *; auto; try lia.
+  f_equal. apply IH. lia.
+Qed.
+
+Lemma resolve_contracts_nth : forall defs addrs k a d,
+  nth_error addrs k = Some a -> nth_error defs k = Some d ->
+  nth_error (resolve_contracts defs addrs) k = Some (if N.eqb a 0 then d else a).
+Proof.
+  induction defs as [|d0 ds IH]; intros [|a0 t] [|k] a d Ha Hd; simpl in *; try discriminate.
+  - inversion Ha; inversion Hd; subst. reflexivity.
+  - eapply IH; eauto.
+Qed.
+
+Lemma resolve_peers_explicit : forall e n p, p <> [] -> resolve_peers e n p = POk p.
+Proof. intros e n [|x p] H; [congruence | reflexivity]. Qed.
+
+Lemma resolve_peers_unset : forall e n,
+  resolve_peers e n [] =
+  if has_defaults n then match e_peers e n with Some l => POk l | None => PErr end else POk [].
+Proof. intros e []; reflexivity. Qed.
+
+Lemma resolve_peers_idem : forall e n p p',
+  resolve_peers e n p = POk p' -> resolve_peers e n p' = POk p'.
+Proof.
+  intros e n [|x p] p' H.
+  - destruct p' as [|y p']; [|reflexivity].
+    rewrite resolve_peers_unset in *. destruct (has_defaults n); [|reflexivity].
+    destruct (e_peers e n) as [l|]; [|discriminate]. exact H.
+  - simpl in H. inversion H; subst. reflexivity.
+Qed.
+
+Lemma resolve_electrum_explicit : forall e k b u, u <> 0 -> resolve_electrum e k b u = UOk u.
+Proof.
+  intros e k b u H. unfold resolve_electrum.
+  destruct (N.eqb u 0) eqn:E; [apply N.eqb_eq in E; congruence | reflexivity].
+Qed.
+
+Definition btc_has_defaults (b : btcnet) : bool := match b with BMainnet | BTestnet => true | _ => false end.
+
+Lemma nth_mod_In : forall (l : list N) k, l <> [] -> In (nth (Nat.modulo k (length l)) l 0) l.
+Proof.
+  intros l k H. apply nth_In. apply Nat.mod_upper_bound.
+  destruct l; [congruence | simpl; lia].
+Qed.
+
+Lemma resolve_electrum_unset : forall e k b r,
+  resolve_electrum e k b 0 = UOk r ->
+  if btc_has_defaults b then exists l, e_urls e b = Some l /\ In r l else r = 0.
+Proof.
+  intros e k b r H. unfold resolve_electrum in H. rewrite N.eqb_refl in H. cbn [negb] in H.
+  destruct b; cbn [btc_has_defaults]; try (injection H as <-; reflexivity).
+  all: destruct (e_urls e _) as [urls|] eqn:E; [|discriminate]; destruct urls as [|x l]; [discriminate|];
+       assert (r = nth (Nat.modulo k (length (x :: l))) (x :: l) 0) as -> by congruence;
+       exists (x :: l); split; [reflexivity | apply nth_mod_In; discriminate].
+Qed.
+
+Lemma env_wfb_spec : forall e, env_wfb e = true ->
+  forall b l, e_urls e b = Some l -> ~ In 0 l.
+Proof.
+  intros e H b l Hl Hin. unfold env_wfb in H. rewrite forallb_forall in H.
+  assert (Hb : In b all_btc) by (destruct b; simpl; auto).
+  specialize (H b Hb). rewrite Hl in H. apply negb_true_iff in H.
+  apply memN_In in Hin. congruence.
+Qed.
+
+Lemma resolve_electrum_idem : forall e, env_wfb e = true ->
+  forall k b u u', resolve_electrum e k b u = UOk u' ->
+  forall k', resolve_electrum e k' b u' = UOk u'.
+Proof.
+  intros e Hwf k b u u' H k'.
+  destruct (N.eq_dec u 0) as [Hu|Hu].
+  - subst u. pose proof (resolve_electrum_unset _ _ _ _ H) as Hd.
+    destruct (btc_has_defaults b) eqn:Hb.
+    + destruct Hd as [l [Hl Hin]]. apply resolve_electrum_explicit.
+      intro; subst. eapply env_wfb_spec; eauto.
+    + subst u'. unfold resolve_electrum. simpl. destruct b; try reflexivity; discriminate.
+  - rewrite resolve_electrum_explicit in H by exact Hu. inversion H; subst.
+    apply resolve_electrum_explicit. exact Hu.
+Qed.
+
+(* ---------- viper precedence ---------- *)
+Lemma explicit_precedence : forall (A : Type) (i : input) (z : A) (s : src A),
+  explicit i z s =
+  match (if has_flags i then s_flag s else None), (if file_read i then s_file s else None) with
+  | Some v, _ => v
+  | None, Some v => v
+  | None, None => z
+  end.
+Proof. intros. unfold explicit, viper_get. destruct (if has_flags i then s_flag s else None); reflexivity. Qed.
+
+(* ---------- network selection ---------- *)
+Lemma selected_all_defined : forall i m t d,
+  i_flags i = FSet m (Some t) (Some d) ->
+  networks i = (if t then NTestnet else if d then NDeveloper else NMainnet, false,
+                net_eth (if t then NTestnet else if d then NDeveloper else NMainnet),
+                net_btc (if t then NTestnet else if d then NDeveloper else NMainnet)).
+Proof. intros i m t d H. unfold networks. rewrite H. destruct t, d; reflexivity. Qed.
+
+Lemma networks_pair : forall i, exists n,
+  snd (fst (networks i)) = net_eth n /\ snd (networks i) = net_btc n /\
+  (has_flags i = true -> n = selected i).
+Proof.
+  intro i. unfold selected, networks, has_flags. destruct (i_flags i) as [|m t d].
+  - exists NUnknown. repeat split; discriminate.
+  - destruct (select_network t d) as [n e]. exists n. repeat split.
+Qed.
+
+Lemma selected_in_candidates : forall i,
+  snd (fst (fst (networks i))) = false -> In (selected i) (candidates i).
+Proof.
+  intro i. unfold selected, networks, candidates, candidates_of. destruct (i_flags i) as [|m t d]; simpl.
+  - auto.
+  - destruct t as [[]|], d as [[]|], m as [[]|]; simpl; intro H; auto; discriminate.
+Qed.
+
+Lemma unambiguous_candidates : forall i m t d,
+  i_flags i = FSet (Some m) (Some t) (Some d) -> (flags_given i <= 1)%nat ->
+  candidates i = [selected i] /\
+  selected i = (if m then NMainnet else if t then NTestnet else if d then NDeveloper else NMainnet).
+Proof.
+  intros i m t d H. unfold flags_given, candidates, candidates_of, selected, networks. rewrite H.
+  destruct m, t, d; simpl; intro L; try lia; split; reflexivity.
+Qed.
+
+(* ---------- the shape of a ReadConfig that got to the resolution stage ---------- *)
+Lemma read_config_networks : forall i,
+  o_eth (read_config i) = snd (fst (networks i)) /\ o_btc (read_config i) = snd (networks i)
+  /\ o_refused (read_config i) = refused i.
+Proof.
+  intro i. unfold read_config.
+  destruct (networks i) as [[[n nerr] eth] btc]. simpl.
+  destruct nerr; [repeat split|].
+  destruct (i_file i); try (repeat split; fail);
+  (destruct (resolve_peers _ _ _); [|repeat split|repeat split];
+   destruct (resolve_electrum _ _ _ _); repeat split).
+Qed.
+
+Lemma read_config_reached : forall i, reached (o_err (read_config i)) = true ->
+  snd (fst (fst (networks i))) = false /\
+  exists p' u',
+    resolve_peers (i_env i) (selected i) (explicit i [] (i_peers i)) = POk p' /\
+    resolve_electrum (i_env i) (i_pick i) (snd (networks i)) (explicit i 0 (i_electrum i)) = UOk u' /\
+    o_peers (read_config i) = p' /\ o_electrum (read_config i) = u' /\
+    o_contracts (read_config i) =
+      resolve_contracts (e_contracts (i_env i)) (map (explicit i 0) (i_contracts i)).
+Proof.
+  intro i. unfold read_config, selected.
+  destruct (networks i) as [[[n nerr] eth] btc]. simpl.
+  destruct nerr; [simpl; discriminate|].
+  destruct (i_file i); simpl; try discriminate;
+  (destruct (resolve_peers _ _ _) as [p'| |] eqn:Hp; simpl; try discriminate;
+   destruct (resolve_electrum _ _ _ _) as [u'| |] eqn:Hu; simpl; try discriminate;
+   intros _; split; [reflexivity|]; exists p', u'; repeat split; assumption).
+Qed.
+
+(* ---------- main theorems about the model ---------- *)
+Lemma explicit_values_kept : forall i, reached (o_err (read_config i)) = true ->
+  (explicit i [] (i_peers i) <> [] -> o_peers (read_config i) = explicit i [] (i_peers i)) /\
+  (explicit i 0 (i_electrum i) <> 0 -> o_electrum (read_config i) = explicit i 0 (i_electrum i)) /\
+  (forall k s d, nth_error (i_contracts i) k = Some s -> nth_error (e_contracts (i_env i)) k = Some d ->
+                 explicit i 0 s <> 0 ->
+                 nth_error (o_contracts (read_config i)) k = Some (explicit i 0 s)).
+Proof.
+  intros i H. destruct (read_config_reached i H) as [_ [p' [u' [Hp [Hu [Ep [Eu Ec]]]]]]].
+  repeat split.
+  - intro Hne. rewrite resolve_peers_explicit in Hp by exact Hne. congruence.
+  - intro Hne. rewrite resolve_electrum_explicit in Hu by exact Hne. congruence.
+  - intros k s d Hs Hd Hne. rewrite Ec.
+    erewrite resolve_contracts_nth; [| apply map_nth_error; exact Hs | exact Hd].
+    destruct (N.eqb (explicit i 0 s) 0) eqn:E; [apply N.eqb_eq in E; congruence | reflexivity].
+Qed.
+
+Lemma defaults_only_where_unset : forall i, reached (o_err (read_config i)) = true ->
+  (explicit i [] (i_peers i) = [] ->
+     if has_defaults (selected i) then e_peers (i_env i) (selected i) = Some (o_peers (read_config i))
+     else o_peers (read_config i) = []) /\
+  (explicit i 0 (i_electrum i) = 0 ->
+     if btc_has_defaults (o_btc (read_config i))
+     then exists l, e_urls (i_env i) (o_btc (read_config i)) = Some l /\ In (o_electrum (read_config i)) l
+     else o_electrum (read_config i) = 0) /\
+  (forall k s d, nth_error (i_contracts i) k = Some s -> nth_error (e_contracts (i_env i)) k = Some d ->
+                 explicit i 0 s = 0 ->
+                 nth_error (o_contracts (read_config i)) k = Some d).
+Proof.
+  intros i H. destruct (read_config_reached i H) as [_ [p' [u' [Hp [Hu [Ep [Eu Ec]]]]]]].
+  destruct (read_config_networks i) as [_ [Hb _]].
+  repeat split.
+  - intro He. rewrite He, resolve_peers_unset in Hp. rewrite Ep.
+    destruct (has_defaults (selected i)).
+    + destruct (e_peers (i_env i) (selected i)); [congruence | discriminate].
+    + congruence.
+  - intro He. rewrite He in Hu. rewrite Hb, Eu. exact (resolve_electrum_unset _ _ _ _ Hu).
+  - intros k s d Hs Hd He. rewrite Ec.
+    erewrite resolve_contracts_nth; [| apply map_nth_error; exact Hs | exact Hd].
+    rewrite He. reflexivity.
+Qed.
+
+Lemma networks_follow_selection : forall i,
+  (has_flags i = true ->
+     o_eth (read_config i) = net_eth (selected i) /\ o_btc (read_config i) = net_btc (selected i)) /\
+  (has_flags i = false ->
+     o_eth (read_config i) = net_eth NUnknown /\ o_btc (read_config i) = net_btc NUnknown /\
+     selected i = NMainnet) /\
+  (exists n, o_eth (read_config i) = net_eth n /\ o_btc (read_config i) = net_btc n).
+Proof.
+  intro i. destruct (read_config_networks i) as [He [Hb _]]. rewrite He, Hb.
+  unfold selected, networks, has_flags. destruct (i_flags i) as [|m t d].
+  - repeat split; try discriminate. exists NUnknown. split; reflexivity.
+  - destruct (select_network t d) as [n e]. simpl. repeat split; try discriminate.
+    exists n. split; reflexivity.
+Qed.
+
+Lemma selection_as_coded : forall i m t d,
+  i_flags i = FSet m (Some t) (Some d) ->
+  selected i = (if t then NTestnet else if d then NDeveloper else NMainnet) /\
+  o_err (read_config i) <> EResolveNetworks.
+Proof.
+  intros i m t d H. pose proof (selected_all_defined i m t d H) as Hn.
+  split; [unfold selected; rewrite Hn; reflexivity|].
+  unfold read_config. rewrite Hn. simpl.
+  destruct (i_file i); simpl; try discriminate;
+  (destruct (resolve_peers _ _ _); simpl; try discriminate;
+   destruct (resolve_electrum _ _ _ _); simpl; try discriminate;
+   destruct (validation_fails _ _); discriminate).
+Qed.
+
+Lemma ambiguous_selection_refused : forall i,
+  o_refused (read_config i) = true <-> (i_cobra i = true /\ (2 <= flags_given i)%nat).
+Proof.
+  intro i. destruct (read_config_networks i) as [_ [_ Hr]]. rewrite Hr. unfold refused.
+  rewrite andb_true_iff, Nat.leb_le. tauto.
+Qed.
+
+Lemma re_resolve_fixpoint : forall i, env_wfb (i_env i) = true ->
+  forall n2 k2, n2 = selected i \/ (i_flags i = FNil /\ n2 = NUnknown) ->
+  re_resolve (i_env i) n2 k2 (read_config i) = read_config i.
+Proof.
+  intros i Hwf n2 k2 Hn. unfold re_resolve.
+  destruct (reached (o_err (read_config i))) eqn:Hr; [|reflexivity]. simpl.
+  destruct (read_config_reached i Hr) as [_ [p' [u' [Hp [Hu [Ep [Eu Ec]]]]]]].
+  destruct (read_config_networks i) as [_ [Hb _]].
+  assert (Hp2 : resolve_peers (i_env i) n2 (o_peers (read_config i)) = POk (o_peers (read_config i))).
+  { rewrite Ep. destruct Hn as [Hn | [Hnil Hn]]; subst n2.
+    - eapply resolve_peers_idem; eauto.
+    - destruct p' as [|x p']; [reflexivity | reflexivity]. }
+  rewrite Hp2.
+  rewrite Hb, Eu. rewrite (resolve_electrum_idem _ Hwf _ _ _ _ Hu k2).
+  rewrite Ec, resolve_contracts_idem, <- Ec, <- Eu, <- Hb.
+  destruct (read_config i); reflexivity.
+Qed.
+
+(* ---------- soundness of the executable property ---------- *)
+Lemma peers_ok_sound : forall x r d, peers_ok x r d = true <-> peers_prop x r d.
+Proof.
+  intros x r d. unfold peers_ok, peers_prop. destruct x as [|a x].
+  - destruct r as [|b r].
+    + split; [intros _; split; [congruence | auto] | reflexivity].
+    + destruct d as [l|].
+      * rewrite list_eqb_eq. split.
+        -- intro H. split; [congruence | intros _; right; congruence].
+        -- intros [_ H]. destruct (H eq_refl) as [H1|H1]; [discriminate | congruence].
+      * split; [discriminate|]. intros [_ H]. destruct (H eq_refl); discriminate.
+  - rewrite list_eqb_eq. split.
+    + intro H. split; [auto | discriminate].
+    + intros [H _]. apply H. discriminate.
+Qed.
+
+Lemma electrum_ok_sound : forall x r d, electrum_ok x r d = true <-> electrum_prop x r d.
+Proof.
+  intros x r d. unfold electrum_ok, electrum_prop.
+  destruct (N.eqb x 0) eqn:E; simpl.
+  - apply N.eqb_eq in E. subst x. rewrite orb_true_iff, N.eqb_eq. split.
+    + intro H. split; [congruence|]. intros _. destruct H as [H|H]; [left; exact H|].
+      destruct d as [l|]; [|discriminate]. right. exists l. split; [reflexivity | apply memN_In; exact H].
+    + intros [_ H]. destruct (H eq_refl) as [H1 | [l [Hl Hin]]]; [left; exact H1|].
+      right. rewrite Hl. apply memN_In. exact Hin.
+  - apply N.eqb_neq in E. rewrite N.eqb_eq. split.
+    + intro H. split; [auto | congruence].
+    + intros [H _]. auto.
+Qed.
+
+Lemma contracts_ok_sound : forall x r d, contracts_ok x r d = true <-> contracts_prop x r d.
+Proof.
+  unfold contracts_prop.
+  induction x as [|a x IH]; intros r d.
+  - destruct r as [|b r]; simpl.
+    + split; [intros _|reflexivity]. repeat split; try lia.
+      all: exfalso; destruct k; simpl in *; discriminate.
+    + split; [destruct d; discriminate|]. intros [H _]. discriminate.
+  - destruct r as [|b r]; [simpl; split; [discriminate | intros [H _]; discriminate]|].
+    destruct d as [|c d]; [simpl; split; [discriminate | intros [_ [H _]]; simpl in H; lia]|].
+    cbn [contracts_ok]. rewrite andb_true_iff, IH. split.
+    + intros [Hh [Hl [Hle Ht]]]. split; [simpl; congruence|]. split; [simpl; lia|].
+      intros [|k] x0 r0 d0 Hx Hr Hd; simpl in *.
+      * inversion Hx; inversion Hr; inversion Hd; subst.
+        destruct (N.eqb x0 0) eqn:E; simpl in Hh.
+        -- apply N.eqb_eq in E. apply orb_true_iff in Hh. rewrite !N.eqb_eq in Hh. split; [congruence | intros _; exact Hh].
+        -- apply N.eqb_neq in E. apply N.eqb_eq in Hh. split; [auto | congruence].
+      * eapply Ht; eauto.
+    + intros [Hl [Hle Ht]]. split.
+      * specialize (Ht 0%nat a b c eq_refl eq_refl eq_refl). destruct Ht as [H1 H2].
+        destruct (N.eqb a 0) eqn:E; simpl.
+        -- apply N.eqb_eq in E. apply orb_true_iff. rewrite !N.eqb_eq. auto.
+        -- apply N.eqb_neq in E. apply N.eqb_eq. auto.
+      * split; [simpl in Hl; lia|]. split; [simpl in Hle; lia|].
+        intros k x0 r0 d0 Hx Hr Hd. apply (Ht (S k) x0 r0 d0); assumption.
+Qed.
+
+Lemma nets_ok_sound : forall i n o, nets_ok i n o = true <-> nets_prop i n o.
+Proof.
+  intros i n o. unfold nets_ok, nets_prop. destruct (i_flags i).
+  - rewrite existsb_exists. split.
+    + intros [n' [_ H]]. apply andb_true_iff in H as [H1 H2].
+      exists n'. split; [apply eth_eqb_eq | apply btc_eqb_eq]; assumption.
+    + intros [n' [H1 H2]]. exists n'. split; [destruct n'; simpl; auto|].
+      apply andb_true_iff. split; [apply eth_eqb_eq | apply btc_eqb_eq]; assumption.
+  - rewrite andb_true_iff, eth_eqb_eq, btc_eqb_eq. tauto.
+Qed.
+
+Lemma same_values_sound : forall a b, same_values a b = true <->
+  (o_peers b = o_peers a /\ o_electrum b = o_electrum a /\ o_contracts b = o_contracts a /\ o_err b = o_err a).
+Proof.
+  intros a b. unfold same_values.
+  rewrite !andb_true_iff, !list_eqb_eq, N.eqb_eq, err_eqb_eq.
+  split; intros H; decompose [and] H; repeat split; congruence.
+Qed.
+
+Lemma and_iff_both : forall A B C D : Prop, (A <-> B) -> (C <-> D) -> (A /\ C <-> B /\ D).
+Proof. tauto. Qed.
+
+Lemma spec_read_sound : forall i o o2, spec_read i o o2 = true <-> read_property i o o2.
+Proof.
+  intros i o o2. unfold spec_read, read_property. rewrite andb_true_iff.
+  apply and_iff_both.
+  - destruct (i_cobra i); cbn [andb].
+    + destruct (2 <=? flags_given i)%nat eqn:E.
+      * apply Nat.leb_le in E. split; auto.
+      * apply Nat.leb_gt in E. split; [intros _ _ H; lia | reflexivity].
+    + split; [intros _ H; discriminate | reflexivity].
+  - destruct (reached (o_err o)).
+    + rewrite andb_true_iff, same_values_sound, existsb_exists.
+      split.
+      * intros [[n [Hin Hn]] Hs] _. split; [|exact Hs].
+        unfold values_ok in Hn. rewrite !andb_true_iff in Hn.
+        destruct Hn as [Hnets [[Hp He] Hc]].
+        exists n. split; [exact Hin|].
+        split; [apply nets_ok_sound; exact Hnets|].
+        split; [apply peers_ok_sound; exact Hp|].
+        split; [apply electrum_ok_sound; exact He | apply contracts_ok_sound; exact Hc].
+      * intro H. destruct (H eq_refl) as [[n [Hin [Hnets [Hp [He Hc]]]]] Hs]. split; [|exact Hs].
+        exists n. split; [exact Hin|].
+        unfold values_ok. rewrite !andb_true_iff.
+        split; [apply nets_ok_sound; exact Hnets|].
+        split; [split; [apply peers_ok_sound; exact Hp | apply electrum_ok_sound; exact He]
+               | apply contracts_ok_sound; exact Hc].
+    + split; [intros _ H; discriminate | reflexivity].
+Qed.
+
+(* ---------- every model output satisfies the property ---------- *)
+Lemma contracts_prop_model : forall defs xs, (length xs <= length defs)%nat ->
+  contracts_prop xs (resolve_contracts defs xs) defs.
+Proof.
+  intros defs xs Hl. unfold contracts_prop. split; [apply resolve_contracts_length; exact Hl|].
+  split; [exact Hl|]. intros k x r d Hx Hr Hd.
+  rewrite (resolve_contracts_nth _ _ _ _ _ Hx Hd) in Hr. inversion Hr; subst.
+  destruct (N.eqb x 0) eqn:E.
+  - apply N.eqb_eq in E. split; [congruence | auto].
+  - apply N.eqb_neq in E. split; [auto | congruence].
+Qed.
+
+Lemma model_satisfies_property : forall i,
+  env_wfb (i_env i) = true -> length (i_contracts i) = length (e_contracts (i_env i)) ->
+  forall n2 k2, n2 = selected i \/ (i_flags i = FNil /\ n2 = NUnknown) ->
+  read_property i (read_config i) (re_resolve (i_env i) n2 k2 (read_config i)).
+Proof.
+  intros i Hwf Hlen n2 k2 Hn. rewrite (re_resolve_fixpoint i Hwf n2 k2 Hn).
+  unfold read_property. split.
+  - intros Hc Hg. apply ambiguous_selection_refused. split; assumption.
+  - intro Hr. split; [|repeat split].
+    destruct (read_config_reached i Hr) as [Hne [p' [u' [Hp [Hu [Ep [Eu Ec]]]]]]].
+    destruct (read_config_networks i) as [Heth [Hbtc _]].
+    exists (selected i). split; [apply selected_in_candidates; exact Hne|].
+    split; [|split; [|split]].
+    + unfold nets_prop. destruct (networks_follow_selection i) as [Hf [Hnf Hex]].
+      unfold has_flags in Hf, Hnf. destruct (i_flags i); [exact Hex | apply Hf; reflexivity].
+    + destruct (explicit_values_kept i Hr) as [K _].
+      destruct (defaults_only_where_unset i Hr) as [D _].
+      unfold peers_prop. split; [exact K|]. intro He. specialize (D He).
+      destruct (has_defaults (selected i)); [right; exact D | left; exact D].
+    + destruct (explicit_values_kept i Hr) as [_ [K _]].
+      unfold electrum_prop. split; [exact K|]. intro He.
+      rewrite He in Hu. rewrite Eu.
+      pose proof (resolve_electrum_unset _ _ _ _ Hu) as D.
+      destruct (networks_follow_selection i) as [Hf [Hnf _]].
+      unfold has_flags in Hf, Hnf. destruct (i_flags i) eqn:Hfl.
+      * destruct (Hnf eq_refl) as [_ [Hb _]]. rewrite Hbtc in Hb. rewrite Hb in D. simpl in D. left. exact D.
+      * destruct (Hf eq_refl) as [_ Hb]. rewrite Hbtc in Hb. rewrite Hb in D.
+        destruct (selected i); simpl in *; auto.
+    + rewrite Ec. apply contracts_prop_model. rewrite map_length. apply Nat.eq_le_incl. exact Hlen.
+Qed.
+
+Lemma model_passes_spec : forall i,
+  env_wfb (i_env i) = true -> length (i_contracts i) = length (e_contracts (i_env i)) ->
+  forall n2 k2, n2 = selected i \/ (i_flags i = FNil /\ n2 = NUnknown) ->
+  spec_read i (read_config i) (re_resolve (i_env i) n2 k2 (read_config i)) = true.
+Proof. intros. apply spec_read_sound. apply model_satisfies_property; assumption. Qed.
+
+(* ---------- the unit cases ---------- *)
+Lemma unit_specs_sound :
+  (forall e n p l r2, spec_peers e n p (POk l) r2 = true ->
+     peers_prop p l (if has_defaults n then e_peers e n else None) /\ r2 = POk l) /\
+  (forall e b u v r2, spec_electrum e b u (UOk v) r2 = true ->
+     electrum_prop u v (if btc_has_defaults b then e_urls e b else None) /\ r2 = UOk v) /\
+  (forall m t d n er eth btc, spec_nets (FSet m t d) (Some (n, er, eth, btc)) = true ->
+     eth = net_eth n /\ btc = net_btc n /\ (er = false -> In n (candidates_of (FSet m t d)))).
+Proof.
+  split; [|split].
+  - intros e n p l r2 H. simpl in H. apply andb_true_iff in H as [H1 H2].
+    apply peers_ok_sound in H1. split; [exact H1|].
+    destruct r2 as [y| |]; simpl in H2; try discriminate. apply list_eqb_eq in H2. congruence.
+  - intros e b u v r2 H. simpl in H. apply andb_true_iff in H as [H1 H2].
+    apply electrum_ok_sound in H1. split; [destruct b; exact H1|].
+    destruct r2 as [y| |]; simpl in H2; try discriminate. apply N.eqb_eq in H2. congruence.
+  - intros m t d n er eth btc H. unfold spec_nets in H. rewrite !andb_true_iff in H.
+    destruct H as [[H1 H2] H3]. apply eth_eqb_eq in H1. apply btc_eqb_eq in H2.
+    split; [exact H1|]. split; [exact H2|]. intro He. subst er. simpl in H3.
+    apply existsb_exists in H3. destruct H3 as [n' [Hin Hn]].
+    apply net_eqb_eq in Hn. subst. exact Hin.
+Qed.
+
+Lemma model_passes_unit_specs :
+  (forall e n p, match resolve_peers e n p with
+                 | POk l => spec_peers e n p (POk l) (resolve_peers e n l) = true
+                 | PErr => True | PPanic => False end) /\
+  (forall e k b u, env_wfb e = true ->
+                 match resolve_electrum e k b u with
+                 | UOk v => forall k', spec_electrum e b u (UOk v) (resolve_electrum e k' b v) = true
+                 | UErr => True | UPanic => e_urls e b = Some [] end) /\
+  (forall m t d, spec_nets (FSet m t d) (model_nets (FSet m t d)) = true).
+Proof.
+  repeat split.
+  - intros e n p. destruct (resolve_peers e n p) as [l| |] eqn:H; auto.
+    + simpl. rewrite (resolve_peers_idem _ _ _ _ H). simpl. rewrite list_eqb_refl, andb_true_r.
+      apply peers_ok_sound. unfold peers_prop. split.
+      * intro Hne. rewrite resolve_peers_explicit in H by exact Hne. congruence.
+      * intro He. subst p. rewrite resolve_peers_unset in H.
+        destruct (has_defaults n); [|left; congruence].
+        destruct (e_peers e n); [right; congruence | discriminate].
+    + destruct p; simpl in H; [|discriminate]. destruct n; try discriminate;
+      destruct (e_peers e _); discriminate.
+  - intros e k b u Hwf. destruct (resolve_electrum e k b u) as [v| |] eqn:H; auto.
+    + intro k'. simpl. rewrite (resolve_electrum_idem _ Hwf _ _ _ _ H k'). simpl.
+      rewrite N.eqb_refl, andb_true_r. apply electrum_ok_sound. unfold electrum_prop. split.
+      * intro Hne. rewrite resolve_electrum_explicit in H by exact Hne. congruence.
+      * intro He. subst u. pose proof (resolve_electrum_unset _ _ _ _ H) as D.
+        destruct b; simpl in D; auto.
+    + unfold resolve_electrum in H. destruct (negb (u =? 0)); [discriminate|].
+      destruct b; try discriminate; destruct (e_urls e _) as [[|]|]; try discriminate; reflexivity.
+  - intros m t d. unfold model_nets, spec_nets.
+    destruct t as [[]|], d as [[]|], m as [[]|]; reflexivity.
+Qed.
+
+(* ---------- the hypotheses are satisfiable, the statements are not vacuous ---------- *)
+Definition ex_env : env :=
+  {| e_peers := net4 None (Some [1; 2]) (Some [3]) None;
+     e_urls := btc4 None (Some [4; 5]) (Some [6]) None;
+     e_contracts := [7; 0]; e_port := 3919 |}.
+Definition none_src {A} : src A := {| s_file := None; s_flag := None |}.
+Definition ex_input (f : flagset) (p : src (list str)) (u : src str) (c : list (src str)) : input :=
+  {| i_env := ex_env; i_flags := f; i_cobra := true; i_file := FGood;
+     i_peers := p; i_electrum := u; i_contracts := c;
+     i_ethurl := {| s_file := Some 20; s_flag := None |}; i_keyfile := {| s_file := Some 21; s_flag := None |};
+     i_storage := {| s_file := Some 22; s_flag := None |}; i_port := none_src;
+     i_validate := true; i_pick := 1 |}.
+
+(* testnet, everything unset: all defaults of the test network; reached, wf, unambiguous *)
+Example ex_defaults :
+  let i := ex_input (FSet (Some false) (Some true) (Some false)) none_src none_src [none_src; none_src] in
+  env_wfb (i_env i) = true /\ length (i_contracts i) = length (e_contracts (i_env i)) /\
+  read_config i = {| o_err := ENone; o_refused := false; o_eth := ESepolia; o_btc := BTestnet;
+                     o_peers := [3]; o_electrum := 6; o_contracts := [7; 0] |}.
+Proof. vm_compute. repeat split. Qed.
+
+(* mainnet, explicit file values and a flag overriding one of them: nothing replaced *)
+Example ex_explicit :
+  let i := ex_input (FSet (Some true) (Some false) (Some false))
+                    {| s_file := Some [30]; s_flag := None |}
+                    {| s_file := Some 31; s_flag := Some 32 |}
+                    [{| s_file := Some 33; s_flag := None |}; none_src] in
+  read_config i = {| o_err := ENone; o_refused := false; o_eth := EMainnet; o_btc := BMainnet;
+                     o_peers := [30]; o_electrum := 32; o_contracts := [33; 0] |}.
+Proof. vm_compute. reflexivity. Qed.
+
+(* developer: no defaults for peers and Electrum, validation fails, contracts still defaulted;
+   two network flags: refused by the command, testnet taken by ReadConfig *)
+Example ex_developer_and_ambiguous :
+  read_config (ex_input (FSet (Some false) (Some false) (Some true)) none_src none_src [none_src; none_src])
+  = {| o_err := EValidation; o_refused := false; o_eth := EDeveloper; o_btc := BRegtest;
+       o_peers := []; o_electrum := 0; o_contracts := [7; 0] |} /\
+  read_config (ex_input (FSet (Some false) (Some true) (Some true)) none_src none_src [none_src; none_src])
+  = {| o_err := ENone; o_refused := true; o_eth := ESepolia; o_btc := BTestnet;
+       o_peers := [3]; o_electrum := 6; o_contracts := [7; 0] |}.
+Proof. vm_compute. split; reflexivity. Qed.
